@@ -806,7 +806,42 @@ pub struct WriteTxn<'a> {
     memtable: MemTable,
 }
 
+/// What a `WriteTxn` had staged at one point in time (see [`WriteTxn::savepoint`]).
+pub struct TxnSavepoint {
+    created_nodes: usize,
+    label_additions: usize,
+    label_removals: usize,
+    vectors: usize,
+    memtable: MemTable,
+}
+
 impl<'a> WriteTxn<'a> {
+    /// Remembers what is staged so far, so that a statement which fails half-way can be undone with
+    /// [`WriteTxn::rollback_to`] without giving up the transaction.  Costs a copy of the staged edges and
+    /// properties; the node / label / vector lists only grow, so their lengths are enough.
+    pub fn savepoint(&self) -> TxnSavepoint {
+        TxnSavepoint {
+            created_nodes: self.created_nodes.len(),
+            label_additions: self.pending_label_additions.len(),
+            label_removals: self.pending_label_removals.len(),
+            vectors: self.pending_vectors.len(),
+            memtable: self.memtable.clone(),
+        }
+    }
+
+    /// Discards everything staged after `savepoint` was taken.
+    pub fn rollback_to(&mut self, savepoint: TxnSavepoint) {
+        for (external_id, _, _) in self.created_nodes.drain(savepoint.created_nodes..) {
+            self.created_external_ids.remove(&external_id);
+        }
+        self.pending_label_additions
+            .truncate(savepoint.label_additions);
+        self.pending_label_removals
+            .truncate(savepoint.label_removals);
+        self.pending_vectors.truncate(savepoint.vectors);
+        self.memtable = savepoint.memtable;
+    }
+
     pub fn create_node(
         &mut self,
         external_id: ExternalId,
